@@ -38,6 +38,8 @@ def gen_metrics(rnd, n_einsums=None, force=None):
         return gen_occ_conv_metrics(rnd)
     if force == "lf-take":
         return gen_lf_take(rnd)
+    if force == "flat-out":
+        return gen_flat_out_metrics(rnd)
     if force is None:
         if n_einsums in (None, 1) and rnd.random() < 0.12:
             return gen_merger(rnd)
@@ -935,3 +937,36 @@ def gen_lf_take(rnd):
     return Spec(decl, [e], rank_order=ro, loop_order={"Z": lo},
                 spacetime={"Z": {"space": [], "time": list(lo)}},
                 extra="\n".join(arch + b + fmt) + "\n", tags=tags)
+
+
+def gen_flat_out_metrics(rnd):
+    """Metrics mode with a flatten() whose ranks ALL belong to the output (the output itself
+    is built flattened): the explicit shape of the output constructor must not name the
+    flattened rank (KF-15)."""
+    r1, r2 = rnd.sample(["M", "N", "K", "J"], 2)
+    decl = {"A": [r1, r2], "Z": [r1, r2]}
+    facs = [_acc("A", [r1, r2])]
+    if rnd.random() < 0.6:
+        br = rnd.choice([[r1], [r2], [r1, r2]])
+        decl["B"] = br
+        facs.append(_acc("B", br))
+        rnd.shuffle(facs)
+    e = Einsum(_acc("Z", [r1, r2]), [Term("times", facs)])
+    flat = r1 + r2
+    parts = {"(%s, %s)" % (r1, r2): ["flatten()"]}
+    lo = [flat]
+    if rnd.random() < 0.4:
+        parts[flat] = ["uniform_occupancy(A.%d)" % rnd.randint(2, 4)]
+        lo = [flat + "1", flat + "0"]
+    arch = ["architecture:", "  accel:", "  - name: System", "    attributes:",
+            "      clock_frequency: 1000", "    local:", "    - name: Mul0", "      class: compute",
+            "      attributes:", "        type: mul"]
+    b = ["bindings:", "  Z:", "  - config: accel", "    prefix: tmp/Z", "  - component: Mul0",
+         "    bindings:", "    - op: mul"]
+    fmt = ["format:", "  A:", "    default:", "      rank-order: [%s, %s]" % (r1, r2)]
+    for r in (r1, r2):
+        fmt += ["      %s:" % r, "        format: C", "        cbits: 32", "        pbits: 32"]
+    return Spec(decl, [e], partitioning={"Z": parts}, loop_order={"Z": lo},
+                spacetime={"Z": {"space": [], "time": list(lo)}},
+                extra="\n".join(arch + b + fmt) + "\n",
+                tags=["metrics", "m-flattened-output", "m-einsums1", "m-configs1"])
